@@ -50,3 +50,7 @@ func VerifInvalidates(newKey string, newContent []string, newVersion uint, oldKe
 	o := ringBroadcast{key: oldKey, content: oldContent, version: oldVersion}
 	return n.Invalidates(o)
 }
+
+// VerifSetMaxCasRetries sets the retry budget of CAS (default 10), so that its exhaustion is within
+// reach of a bounded exploration. Call before the KV is used.
+func (m *KV) VerifSetMaxCasRetries(n int) { m.maxCasRetries = n }
